@@ -13,6 +13,7 @@
    printing themselves, the output mutex, yarac/-C, exit status, deadlines (--timeout). *)
 From Coq Require Import List Arith Permutation.
 From YV Require Import Model.QueueOps Model.Queue gen.GenQueue Proofs.QueueProofs.
+From YV Require Import Model.QueueOutput gen.GenOutput Proofs.QueueOutputProofs.
 Import ListNotations.
 
 (* (a) the counting invariant: semaphore values, files in the ring and operations in flight *)
@@ -72,3 +73,74 @@ Theorem c18_nonvacuous_critical_section :
   reachable queue_cfg ex_files 3 ex_incs /\ qnext_op queue_cfg 2 ex_incs = Some (QLoad QHead) /\
   q_mtx (q_sh ex_incs) = Some 2.
 Proof. exact ex_in_critical_section. Qed.
+
+(* ------------------------------------------------------------------------------------------------
+   The output path.  [out_worker] (gen/GenOutput.v) is regenerated on every run from cli/yara.c: the
+   code a scanning thread runs (scanning_thread, scan_file, the scanner callback, handle_message,
+   the print_ helpers), with control flow kept and statements reduced to events: lock / unlock of output_mutex,
+   one [EOut] per stdio call, one [EVar] per access to a file-scope variable.  [exec out_worker tr o]:
+   [tr] is the event trace of SOME execution (any branch of every if/switch, any number of
+   iterations of every loop, early returns).  [lrun allowed_now h tr] runs "is the mutex held by this
+   thread" over a trace and fails on: a second lock, an unlock without lock, and any output or
+   variable access without the mutex that is not accepted by [allowed_now]. *)
+
+(* (e) every write to stdout of every execution of a scanning thread happens with output_mutex held;
+   lock and unlock are balanced on every path, early returns included; on stderr the only writes
+   without the mutex are the two warning sites listed in [unlocked_stderr_sites] *)
+Theorem output_under_mutex : forall tr o, exec out_worker tr o ->
+  lrun allowed_now false tr = Some false /\
+  forall pre e post, tr = pre ++ e :: post ->
+    exists held, lrun allowed_now false pre = Some held /\
+      (forall site, e = EOut Stdout site -> held = true) /\
+      (forall site, e = EOut Stderr site -> held = true \/ In site unlocked_stderr_sites) /\
+      (e = ELock -> held = false) /\ (e = EUnlock -> held = true).
+Proof. exact output_under_mutex_proof. Qed.
+Print Assumptions output_under_mutex.
+
+(* (f) every access of a scanning thread to a file-scope variable is under output_mutex, or is a read
+   of a variable that no scanning thread writes and the main thread does not write while they run
+   (the options), or concerns a variable of [known_unprotected_vars] = total_count (known findings
+   limit-global / race:total_count).  A new unprotected access makes [worker_checked] fail. *)
+Theorem shared_accesses_disciplined : forall tr o, exec out_worker tr o ->
+  forall pre v w post, tr = pre ++ EVar v w :: post ->
+    exists held, lrun allowed_now false pre = Some held /\
+      (held = true \/ In v known_unprotected_vars \/
+       (w = false /\ ~ In v (written_vars out_worker) /\ ~ In v out_main_writes)).
+Proof. exact shared_accesses_proof. Qed.
+Print Assumptions shared_accesses_disciplined.
+
+(* (g) any number of scanning threads, each somewhere inside an execution of the worker code,
+   interleaved in any way the mutex permits ([grun]: lock only when free, unlock only by the owner):
+   what is written to stdout between a lock and the matching unlock of thread t is written by t,
+   i.e. the lines of a match group are contiguous in the output *)
+Theorem match_group_atomic : forall g : list (nat * oev),
+  (forall t, exists tr o rest, exec out_worker tr o /\ tr = proj t g ++ rest) ->
+  grun None g <> None ->
+  forall pre t sec post, g = pre ++ (t, ELock) :: sec ++ (t, EUnlock) :: post -> ~ In (t, EUnlock) sec ->
+  forall u site, In (u, EOut Stdout site) sec -> u = t.
+Proof. exact match_group_atomic_proof. Qed.
+Print Assumptions match_group_atomic.
+
+Theorem stdout_writer_owns_mutex : forall g : list (nat * oev),
+  (forall t, exists tr o rest, exec out_worker tr o /\ tr = proj t g ++ rest) ->
+  grun None g <> None ->
+  forall pre u site post, g = pre ++ (u, EOut Stdout site) :: post -> grun None pre = Some (Some u).
+Proof. exact stdout_writer_owns_mutex_proof. Qed.
+Print Assumptions stdout_writer_owns_mutex.
+
+(* non-vacuity: the worker code has an execution that locks, prints to stdout and accesses shared
+   variables; a two-thread interleaving satisfying the hypotheses; and the mutex alone does not give
+   atomicity: a thread printing without it tears a group and is rejected by the discipline *)
+Theorem c18_nonvacuous_worker_prints :
+  exists tr, exec out_worker tr ONormal /\
+             existsb is_lock tr = true /\ existsb is_stdout tr = true /\ existsb is_var tr = true.
+Proof. exact worker_has_printing_execution. Qed.
+
+Theorem c18_nonvacuous_interleaving :
+  grun None ex_g = Some None /\ lrun allowed_now false (proj 1 ex_g) = Some false /\
+  lrun allowed_now false (proj 2 ex_g) = Some false.
+Proof. exact ex_g_ok. Qed.
+
+Theorem c18_discipline_needed :
+  grun None ex_torn = Some None /\ lrun allowed_now false (proj 2 ex_torn) = None.
+Proof. exact ex_torn_rejected. Qed.
